@@ -1050,6 +1050,7 @@ func arrfStream(r *Run) {
 		VSlice(TAny, VDrop(i(2)), i(1)), VArr(TAny, VDrop(i(2)), VNil(), i(1)), VMapSlice(SKV("a", VDrop(VStr("x"))), SKV("b", VNil()), SKV("c", i(3))),
 		VStrMap(SKV("b", VNil()), SKV("a", i(2))), VStrMap(SKV("b", i(1)), SKV("a", i(2)), SKV("c", i(0))), VMap(TInt(0), TStr, KV(i(10), VStr("b")), KV(i(9), VStr("a"))),
 		VMap(TStr, TInt(0), SKV("x", i(3)), SKV("y", i(1))), VStrMap(), VMapSlice(), VBytes("ba"), VBytes(""), VKeyed(Field{"k1", i(2)}),
+		VBytes("h\xc3\xa9llo \xf0\x9f\x98\x80"), VBytes("\xc3\xa9\xff\xc3"), // a []byte is the typed slice []uint8: one element per BYTE, also where the bytes are well-formed UTF-8
 		VAnys(VNilPtr(), VNil(), VNilPtr()), VAnys(VPtr(i(1)), VPtr(i(1))), VAnys(VBool(true), VBool(false), VBool(true)),
 		VAnys(VInt(1, 1), VInt(0, 1), VInt(4, 1), VFlt(0, 1), VFlt(1, 1), VInt(6, 1)), VAnys(VInt(4, 1<<53+1), VInt(4, 1<<53), VFlt(1, 1<<53)), VAnys(VInt(4, 1<<62), VInt(9, 1<<62+1), VInt(0, -5)),
 		VAnys(VStr("é"), VStr("E"), VStr("e"), VStr("É"), VStr("z"), VStr("_"), VStr("A"), VStr("a")), VAnys(VStr("10"), VStr("9"), i(10), i(9)), VAnys(VRange(1, 2), VRange(1, 2), VRange(1, 3)),
